@@ -9,7 +9,7 @@ pub fn history_rules(_prog: &Program, trace: &[Ev]) -> Vec<Verdict>
     let mut out = Vec::new();
     let mut runs: HashMap<u8, u32> = HashMap::new();
     let mut dropped: HashMap<u32, usize> = HashMap::new();
-    let mut push = |out: &mut Vec<Verdict>, prop: &'static str, rule: &'static str, also: &'static [&'static str], pos: usize, msg: String|
+    let push = |out: &mut Vec<Verdict>, prop: &'static str, rule: &'static str, also: &'static [&'static str], pos: usize, msg: String|
     {
         if !out.iter().any(|v: &Verdict| v.rule == rule) { out.push(Verdict { prop, rule, also, pos, msg }); }
     };
